@@ -233,7 +233,7 @@ func mkBreaker(kind int, salt uint64, st *brStat) func(old, new []item) bool {
 
 func main() {
 	r := ev.New("C18")
-	r.Rule("one case = one generated instance: (a) item list (weights >= 0 from small alphabets / zero / heavier than the limit, values > 0 from small alphabets / proportional to weight) + limit (0, small, around the weight sum) run through Knapsack with no tie-breaker and with five tie-breakers; (b) value list + maxValue run through FindDpSolvers for allowOverOnce in {false,true} x the same six tie-breaker settings, followed by Best/BestAllowMinOverflow queries; (c) an undirected simple graph (G(n,p) at all densities, multipartite, clique unions, paths/cycles/stars, isolated vertices, empty) built in a seeded insertion order and enumerated several times (Go's map order varies between calls). distinct = hash of the instance (items+limit, or adjacency matrix); non-trivial = at least 2 items / 2 vertices; (d) further engines, one per situation that do-then-observe cases do not contain: big (65..300 items, selections longer than 64/128/256, limits and key counts above 4096, unions of small graphs with 65..4100 vertices), cliques/grow (one Graph value grown in windows of unobserved mutators, results kept and judged again later or overwritten by the caller, Init half-way, first stage written into Nodes), cliques/labels (look-alike labels of several types), finddp/hugelimit and finddp/overflow (limits/values of 2^31..MaxInt; totals beyond MaxInt), session/serial (uninterrupted call sequence from one caller buffer, one ingredient changed per call, panicking and re-entrant callbacks, all results judged again at the end), knapsack/mid, finddp/mid, cliques/mid (the sizes between the wide and the big engines: 41..64 items, 23..64 values, exactly 17..64 vertices, with 32/33, 48/49, 63/64 picked on purpose; limits 901..4094; no tie-breaker passed as an explicit nil function in half of those calls), cliques/hubs (connected graphs of 66..230 vertices in which some vertices have 65..220 neighbours: a few hubs plus leaves adjacent to subsets of the hubs, and small graphs blown up by replacing vertices with independent sets), finddp/long (255..300 values: selections of more than 255 items in the map), knapsack/longtable (6..14 items under limits around 2^15 and 2^16 and up to 100000)")
+	r.Rule("one case = one generated instance: (a) item list (weights >= 0 from small alphabets / zero / heavier than the limit, values > 0 from small alphabets / proportional to weight) + limit (0, small, around the weight sum) run through Knapsack with no tie-breaker and with five tie-breakers; (b) value list + maxValue run through FindDpSolvers for allowOverOnce in {false,true} x the same six tie-breaker settings, followed by Best/BestAllowMinOverflow queries; (c) an undirected simple graph (G(n,p) at all densities, multipartite, clique unions, paths/cycles/stars, isolated vertices, empty) built in a seeded insertion order and enumerated several times (Go's map order varies between calls). distinct = hash of the instance (items+limit, or adjacency matrix); non-trivial = at least 2 items / 2 vertices; (d) further engines, one per situation that do-then-observe cases do not contain: big (65..300 items, selections longer than 64/128/256, limits and key counts above 4096, unions of small graphs with 65..4100 vertices), cliques/grow (one Graph value grown in windows of unobserved mutators, results kept and judged again later or overwritten by the caller, Init half-way, first stage written into Nodes), cliques/labels (look-alike labels of several types), finddp/hugelimit and finddp/overflow (limits/values of 2^31..MaxInt; totals beyond MaxInt), session/serial (uninterrupted call sequence from one caller buffer, one ingredient changed per call, panicking and re-entrant callbacks, all results judged again at the end), knapsack/mid, finddp/mid, cliques/mid (the sizes between the wide and the big engines: 41..64 items, 23..64 values, exactly 17..64 vertices, with 32/33, 48/49, 63/64 picked on purpose; limits 901..4094; no tie-breaker passed as an explicit nil function in half of those calls), cliques/hubs (connected graphs of 66..230 vertices in which some vertices have 65..220 neighbours: a few hubs plus leaves adjacent to subsets of the hubs, and small graphs blown up by replacing vertices with independent sets), finddp/long (255..300 values: selections of more than 255 items in the map), knapsack/longtable (6..14 items under limits around 2^15 and 2^16 and up to 100000), knapsack/exactfill (3..12 items under limits of 2^16..2^21+7, some of them cut from the limit itself so that the best selection loads the knapsack to exactly the limit)")
 	r.Assume("the oracle is the enumeration of all 2^n selections (vertex subsets) for n <= 10 (14 thorough) items, n <= 9 (12 thorough) vertices; the wide engines (n up to 40 items / 16..20 vertices) use a naive two-row value table, a boolean reachability table and a 2^n clique table instead, and the two tables are cross-checked against the enumeration on every small case (disagreement = harness failure)")
 	r.Assume("domain as quantified: weights >= 0, values > 0, limit >= 0 for Knapsack (no selection satisfies a negative limit, so the statement cannot be about it), any maxValue for FindDpSolvers (negative ones occasionally), simple graphs without self-loops built with AddNode/AddUndirectedEdge; for the empty graph both [] and [[]] are accepted")
 	r.Assume("keys above maxValue other than the smallest attainable overshoot (golib keeps earlier, larger overshoots) are not judged except that every entry present must be a valid selection summing to its key; Best(q)/BestAllowMinOverflow(q) are also queried for q < maxValue of the construction, where the statement's description of the map determines the answer")
@@ -279,6 +279,8 @@ func main() {
 		r.Cases("cliques/hubs", r.N(200, 2500), hv, hubCliqueCase)
 		r.Cases("finddp/long", r.N(40, 400), hv, longFindDpCase)
 		r.Cases("knapsack/longtable", r.N(32, 300), hv, longTableKnapsackCase)
+		// limits of 2^16..2^21 whose best selection loads the knapsack to exactly the limit (exactfill.go)
+		r.Cases("knapsack/exactfill", r.N(40, 400), ev.Opt{HangViolation: true, MaxCaseSeconds: 300, Workers: 4}, exactFillKnapsackCase)
 	}
 
 	// anti-vacuity floors: about 1/5 .. 1/10 of what the quick tier observes at seed 1
@@ -397,6 +399,9 @@ func main() {
 	r.Require("fl_instances_with_more_than_256_values", 10)
 	r.Require("fl_maps_with_selection_longer_than_256", 25)
 	r.Require("kl_calls", 30)
+	r.Require("kx_calls", 40)
+	r.Require("kx_limit_at_least_2^20", 15)
+	r.Require("kx_optimum_fills_exactly_at_least_2^20", 12)
 	r.Require("kl_limit_above_32767", 15)
 	r.Require("kl_limit_above_65535", 8)
 	r.Require("kl_selections_heavier_than_65535", 8)
